@@ -74,8 +74,10 @@ type analyzer struct {
 	info     *types.Info
 	skip     map[string]bool // base names of files whose functions are not analysed
 	facts    []Fact
-	retFresh map[*types.Func]bool
-	decls    map[*types.Func]*ast.FuncDecl
+	retFresh  map[*types.Func]bool
+	recvLeaks map[*types.Func]bool
+	allDecls  map[*types.Func]*ast.FuncDecl // including the files whose functions are not analysed
+	decls     map[*types.Func]*ast.FuncDecl
 	paramInv map[*types.Var][]inv
 	pending  []pendingLit
 	roots    map[string]bool
@@ -83,30 +85,39 @@ type analyzer struct {
 
 func analyze(fset *token.FileSet, pkg *types.Package, info *types.Info, files []*ast.File, skip map[string]bool) []Fact {
 	a := &analyzer{fset: fset, pkg: pkg, info: info, skip: skip, retFresh: map[*types.Func]bool{},
+		recvLeaks: map[*types.Func]bool{}, allDecls: map[*types.Func]*ast.FuncDecl{},
 		decls: map[*types.Func]*ast.FuncDecl{}, paramInv: map[*types.Var][]inv{}, roots: map[string]bool{}}
 	var decls []*ast.FuncDecl
 	for _, f := range files {
-		if skip[filepath.Base(fset.Position(f.Pos()).Filename)] {
-			continue
-		}
+		skipped := skip[filepath.Base(fset.Position(f.Pos()).Filename)]
 		for _, d := range f.Decls {
 			if fd, ok := d.(*ast.FuncDecl); ok && fd.Body != nil {
 				if fn, ok := info.Defs[fd.Name].(*types.Func); ok {
-					a.decls[fn] = fd
-					decls = append(decls, fd)
+					a.allDecls[fn] = fd
+					if !skipped {
+						a.decls[fn] = fd
+						decls = append(decls, fd)
+					}
 				}
 			}
 		}
 	}
-	// which functions return a freshly allocated object (fixpoint)
-	for round := 0; round < 6; round++ {
+	// which methods hand out their receiver, which functions return a fresh
+	// object: fixpoint, starting from "leaks" / "not fresh"
+	for fn := range a.decls {
+		a.recvLeaks[fn] = true
+	}
+	for round := 0; round < 8; round++ {
+		for fn, fd := range a.decls {
+			a.recvLeaks[fn] = a.computeRecvLeaks(fd)
+		}
 		for fn, fd := range a.decls {
 			a.retFresh[fn] = a.computeRetFresh(fd)
 		}
 	}
 	for _, fd := range decls {
 		fn := info.Defs[fd.Name].(*types.Func)
-		c := &fctx{a: a, name: funcName(fn), fresh: a.freshLocals(fd.Body, fd.Body), lits: new(int)}
+		c := &fctx{a: a, name: funcName(fn), fresh: a.freshLocals(fd.Body), lits: new(int)}
 		if sig := fn.Type().(*types.Signature); sig.Recv() != nil {
 			c.recv = sig.Recv()
 		}
@@ -117,7 +128,94 @@ func analyze(fset *token.FileSet, pkg *types.Package, info *types.Info, files []
 		c.endOfFunc(fd.End())
 	}
 	a.resolvePending()
+	a.ifaceRoots(files)
 	return a.facts
+}
+
+// ifaceRoots: library code calls the package back through interfaces declared
+// elsewhere (http.Handler, http.Hijacker, io.ReadCloser, httputil.BufferPool...).
+// Every such interface that the source names, that is a parameter type of a
+// library function the package calls, or a field type of a library struct the
+// package builds, makes the implementing methods of every type of the package
+// concurrent roots.
+func (a *analyzer) ifaceRoots(files []*ast.File) {
+	var ifaces []*types.Interface
+	seen := map[*types.Interface]bool{}
+	add := func(t types.Type) {
+		if t == nil {
+			return
+		}
+		if n, ok := types.Unalias(t).(*types.Named); ok && n.Obj().Pkg() == a.pkg {
+			return
+		}
+		if it, ok := t.Underlying().(*types.Interface); ok && it.NumMethods() > 0 && !seen[it] {
+			seen[it] = true
+			ifaces = append(ifaces, it)
+		}
+	}
+	for _, f := range files {
+		ast.Inspect(f, func(n ast.Node) bool {
+			switch x := n.(type) {
+			case *ast.Ident:
+				if tn, ok := a.info.Uses[x].(*types.TypeName); ok && tn.Pkg() != nil && tn.Pkg() != a.pkg {
+					add(tn.Type())
+				}
+			case *ast.CallExpr:
+				if sig, ok := a.info.TypeOf(x.Fun).(*types.Signature); ok {
+					var callee types.Object
+					switch f := ast.Unparen(x.Fun).(type) {
+					case *ast.Ident:
+						callee = a.info.Uses[f]
+					case *ast.SelectorExpr:
+						callee = a.info.Uses[f.Sel]
+					}
+					if callee != nil && callee.Pkg() != nil && callee.Pkg() != a.pkg {
+						for i := 0; i < sig.Params().Len(); i++ {
+							t := sig.Params().At(i).Type()
+							if sl, ok := t.(*types.Slice); ok && sig.Variadic() && i == sig.Params().Len()-1 {
+								t = sl.Elem()
+							}
+							add(t)
+						}
+					}
+				}
+			case *ast.CompositeLit:
+				if n := namedOf(a.info.TypeOf(x)); n != nil && n.Obj().Pkg() != a.pkg {
+					if st := structOf(n); st != nil {
+						for i := 0; i < st.NumFields(); i++ {
+							add(st.Field(i).Type())
+						}
+					}
+				}
+			}
+			return true
+		})
+	}
+	sc := a.pkg.Scope()
+	names := sc.Names()
+	sort.Strings(names)
+	for _, nm := range names {
+		tn, ok := sc.Lookup(nm).(*types.TypeName)
+		if !ok || tn.IsAlias() {
+			continue
+		}
+		if _, isIface := tn.Type().Underlying().(*types.Interface); isIface {
+			continue
+		}
+		pt := types.NewPointer(tn.Type())
+		for _, it := range ifaces {
+			if !types.Implements(pt, it) && !types.Implements(tn.Type(), it) {
+				continue
+			}
+			for i := 0; i < it.NumMethods(); i++ {
+				if o, _, _ := types.LookupFieldOrMethod(pt, true, a.pkg, it.Method(i).Name()); o != nil {
+					if m, ok := o.(*types.Func); ok && m.Pkg() == a.pkg && a.decls[m] != nil {
+						a.emit(Fact{Kind: "root", F: funcName(m), Why: "iface"})
+					}
+				}
+			}
+		}
+	}
 }
 
 func (a *analyzer) emit(f Fact) {
@@ -213,8 +311,20 @@ func (a *analyzer) rpcRoots(t types.Type) {
 }
 
 // ---- freshness -------------------------------------------------------------
+//
+// A pointer-typed local is FRESH while it holds an object allocated in this
+// function (&T{...}, new(T), or the result of a function that returns a fresh
+// object) that has not been handed out yet.  It is handed out ("leaks") when it
+// is passed as an argument (except to functions with an empty body, i.e. the
+// verification hooks), mentioned by a go statement or a stored function
+// literal, stored into a field / element / composite literal, sent on a
+// channel, copied to another variable, or when a method is called on it that
+// leaks its receiver by the same rules.  Freshness is position-sensitive: the
+// variable counts as fresh up to the end of the first leaking expression.
 
-func (a *analyzer) freshExpr(e ast.Expr, fresh map[*types.Var]bool) bool {
+const never = token.Pos(1 << 40)
+
+func (a *analyzer) freshExpr(e ast.Expr, fresh map[*types.Var]token.Pos, at token.Pos) bool {
 	switch x := ast.Unparen(e).(type) {
 	case *ast.UnaryExpr:
 		if x.Op == token.AND {
@@ -235,15 +345,115 @@ func (a *analyzer) freshExpr(e ast.Expr, fresh map[*types.Var]bool) bool {
 			return true
 		}
 		if v, ok := a.info.Uses[x].(*types.Var); ok && fresh != nil {
-			return fresh[v]
+			lp, ok := fresh[v]
+			return ok && at < lp
 		}
 	}
 	return false
 }
 
-// freshLocals: pointer-typed local variables all of whose assignments are
-// fresh allocations and which are not used inside a go / escaping literal.
-func (a *analyzer) freshLocals(body *ast.BlockStmt, _ ast.Node) map[*types.Var]bool {
+func (a *analyzer) emptyBody(fn *types.Func) bool {
+	fd := a.allDecls[fn]
+	return fd != nil && fd.Body != nil && len(fd.Body.List) == 0
+}
+
+// isVar: e is (a parenthesised / address-of) use of v
+func (a *analyzer) isVar(e ast.Expr, v *types.Var) bool {
+	switch x := ast.Unparen(e).(type) {
+	case *ast.Ident:
+		return a.info.Uses[x] == v
+	case *ast.UnaryExpr:
+		return x.Op == token.AND && a.isVar(x.X, v)
+	}
+	return false
+}
+
+func (a *analyzer) mentions(n ast.Node, v *types.Var) bool {
+	found := false
+	ast.Inspect(n, func(m ast.Node) bool {
+		if id, ok := m.(*ast.Ident); ok && a.info.Uses[id] == v {
+			found = true
+		}
+		return !found
+	})
+	return found
+}
+
+// leakPos: the end of the first expression in body that hands v out.
+func (a *analyzer) leakPos(body ast.Node, v *types.Var) token.Pos {
+	lp := never
+	leak := func(p token.Pos) {
+		if p < lp {
+			lp = p
+		}
+	}
+	immediate := map[*ast.FuncLit]bool{}
+	ast.Inspect(body, func(n ast.Node) bool {
+		switch s := n.(type) {
+		case *ast.GoStmt:
+			if a.mentions(s.Call, v) {
+				leak(s.Pos())
+			}
+		case *ast.FuncLit:
+			if !immediate[s] && a.mentions(s, v) {
+				leak(s.Pos())
+			}
+		case *ast.SendStmt:
+			if a.isVar(s.Value, v) {
+				leak(s.End())
+			}
+		case *ast.CompositeLit:
+			for _, el := range s.Elts {
+				if kv, ok := el.(*ast.KeyValueExpr); ok {
+					el = kv.Value
+				}
+				if a.isVar(el, v) {
+					leak(s.End())
+				}
+			}
+		case *ast.AssignStmt:
+			for i, r := range s.Rhs {
+				if a.isVar(r, v) {
+					_ = i
+					leak(s.End())
+				}
+			}
+		case *ast.CallExpr:
+			if lit, ok := ast.Unparen(s.Fun).(*ast.FuncLit); ok {
+				immediate[lit] = true
+			}
+			var callee *types.Func
+			switch f := ast.Unparen(s.Fun).(type) {
+			case *ast.Ident:
+				callee, _ = a.info.Uses[f].(*types.Func)
+			case *ast.SelectorExpr:
+				if sel := a.info.Selections[f]; sel != nil && sel.Kind() == types.MethodVal {
+					callee, _ = sel.Obj().(*types.Func)
+					if a.isVar(f.X, v) { // a method call on v
+						if callee == nil || callee.Pkg() != a.pkg || a.allDecls[callee] == nil || a.recvLeaks[callee] {
+							leak(s.End())
+						}
+					}
+				} else if sel == nil {
+					callee, _ = a.info.Uses[f.Sel].(*types.Func)
+				}
+			}
+			for _, arg := range s.Args {
+				if a.isVar(arg, v) && !(callee != nil && a.emptyBody(callee)) {
+					if tv, ok := a.info.Types[s.Fun]; ok && tv.IsType() {
+						continue // a conversion
+					}
+					leak(s.End())
+				}
+			}
+		}
+		return true
+	})
+	return lp
+}
+
+// freshLocals: candidate variable -> position up to which it is fresh.
+func (a *analyzer) freshLocals(body *ast.BlockStmt) map[*types.Var]token.Pos {
 	cand := map[*types.Var]bool{}
 	bad := map[*types.Var]bool{}
 	assign := func(lhs ast.Expr, rhs ast.Expr, tupleCall bool, idx int) {
@@ -255,14 +465,13 @@ func (a *analyzer) freshLocals(body *ast.BlockStmt, _ ast.Node) map[*types.Var]b
 		if v == nil || v.IsField() || !isPtr(v.Type()) || structOf(v.Type()) == nil {
 			return
 		}
-		ok = false
+		if n := namedOf(v.Type()); n == nil || n.Obj().Pkg() != a.pkg {
+			return
+		}
 		if tupleCall {
-			ok = idx == 0 && a.freshExpr(rhs, nil)
+			ok = idx == 0 && a.freshExpr(rhs, nil, 0)
 		} else {
-			ok = a.freshExpr(rhs, nil)
-			if id2, isId := ast.Unparen(rhs).(*ast.Ident); isId && id2.Name == "nil" {
-				ok = true
-			}
+			ok = a.freshExpr(rhs, nil, 0)
 		}
 		if ok {
 			cand[v] = true
@@ -292,23 +501,13 @@ func (a *analyzer) freshLocals(body *ast.BlockStmt, _ ast.Node) map[*types.Var]b
 					}
 				}
 			}
-		case *ast.GoStmt:
-			// anything mentioned by a go statement is published
-			ast.Inspect(s.Call, func(m ast.Node) bool {
-				if id, ok := m.(*ast.Ident); ok {
-					if v, _ := a.info.Uses[id].(*types.Var); v != nil {
-						bad[v] = true
-					}
-				}
-				return true
-			})
 		}
 		return true
 	})
-	out := map[*types.Var]bool{}
+	out := map[*types.Var]token.Pos{}
 	for v := range cand {
 		if !bad[v] {
-			out[v] = true
+			out[v] = a.leakPos(body, v)
 		}
 	}
 	return out
@@ -320,10 +519,9 @@ func (a *analyzer) computeRetFresh(fd *ast.FuncDecl) bool {
 	if sig.Results().Len() == 0 || !isPtr(sig.Results().At(0).Type()) || structOf(sig.Results().At(0).Type()) == nil {
 		return false
 	}
-	fresh := a.freshLocals(fd.Body, fd.Body)
+	fresh := a.freshLocals(fd.Body)
 	ok, any := true, false
-	var visit func(n ast.Node) bool
-	visit = func(n ast.Node) bool {
+	ast.Inspect(fd.Body, func(n ast.Node) bool {
 		switch s := n.(type) {
 		case *ast.FuncLit:
 			return false
@@ -333,14 +531,22 @@ func (a *analyzer) computeRetFresh(fd *ast.FuncDecl) bool {
 				return false
 			}
 			any = true
-			if !a.freshExpr(s.Results[0], fresh) {
+			if !a.freshExpr(s.Results[0], fresh, s.Pos()) {
 				ok = false
 			}
 		}
 		return true
-	}
-	ast.Inspect(fd.Body, visit)
+	})
 	return ok && any
+}
+
+func (a *analyzer) computeRecvLeaks(fd *ast.FuncDecl) bool {
+	fn := a.info.Defs[fd.Name].(*types.Func)
+	recv := fn.Type().(*types.Signature).Recv()
+	if recv == nil {
+		return false
+	}
+	return a.leakPos(fd.Body, recv) != never
 }
 
 // ---- per-function walk -----------------------------------------------------
@@ -349,7 +555,7 @@ type fctx struct {
 	a      *analyzer
 	name   string
 	recv   *types.Var
-	fresh  map[*types.Var]bool
+	fresh  map[*types.Var]token.Pos
 	alias  map[*types.Var]*types.Var // range variable over a []func parameter -> the parameter
 	scope  ast.Node                  // the FuncDecl / FuncLit whose locals are private
 	inGo   bool // runs (possibly) in another goroutine than the enclosing function
@@ -763,7 +969,7 @@ func (c *fctx) classify(x ast.Expr) string {
 			}
 			return "shared"
 		}
-		if c.fresh[v] && (declaredHere || !c.inGo) {
+		if lp, ok := c.fresh[v]; ok && e.Pos() < lp && (declaredHere || !c.inGo) {
 			return "local"
 		}
 	}
@@ -1154,7 +1360,9 @@ func (c *fctx) external(fn *types.Func, call *ast.CallExpr) {
 	}
 	switch fn.Pkg().Path() {
 	case "sync/atomic":
-		c.emit(Fact{Kind: "sync", RW: "atomic", Why: fn.Name()}, call.Pos())
+		if fn.Type().(*types.Signature).Recv() == nil {
+			c.emit(Fact{Kind: "sync", RW: "atomic", Why: fn.Name()}, call.Pos())
+		}
 	case "net/rpc":
 		if (fn.Name() == "Register" || fn.Name() == "RegisterName") && len(call.Args) > 0 {
 			c.a.rpcRoots(c.a.info.TypeOf(call.Args[len(call.Args)-1]))
